@@ -403,7 +403,28 @@ fn strat_generic() -> BoxedStrategy<Poly> {
           // optionally give two or three consecutive vertices bit-equal latitudes (what a lon/lat box or a
           // hand-typed trapezoid has): the great-circle edge between them is not the parallel
           let mut kind = String::new();
-          if eqlat > 0 && convex {
+          if eqlat == 4 && convex {
+            // instead: vertex latitudes snapped onto the rings of cell corners of the requested depth or
+            // of a shallower one (y = k / nside in the projection plane: the equator, the transition
+            // latitude with sin(lat) = 2/3 exactly, every ring of cell vertices)
+            let backup = verts.clone();
+            let nn = (1u64 << depth.saturating_sub((rot % 3) as u8)) as f64;
+            let mut moved = false;
+            for v in verts.iter_mut() {
+              let (x, y) = geom::proj_ref(v.0, v.1);
+              let ys = (y * nn).round() / nn;
+              let (_, la) = geom::unproj_ref(x, ys.max(-2.0).min(2.0));
+              if (la - v.1).abs() < r / 8.0 && la.abs() < geom::HALF_PI - 0.02 {
+                v.1 = la;
+                moved = true;
+              }
+            }
+            if moved && is_convex_around(&verts, lon_c, lat_c, r) {
+              kind = "ring_latitudes".into();
+            } else {
+              verts = backup;
+            }
+          } else if eqlat > 0 && convex {
             let backup = verts.clone();
             let i0 = (eqlat as usize * 7 + rot) % k;
             let n_eq = if eqlat >= 3 { 2 } else { 1 };
